@@ -15,6 +15,11 @@ CLAIMS = {
     technique='Coq proof over hand-written model (induction over chunk list; streaming law for \\r?\\n split) + model/impl correspondence by vm_compute + python oracle'),
 }
 def main():
+    d = os.path.join(V, 'harness', 'claims')
+    if os.path.isdir(d):
+        for f in sorted(os.listdir(d)):
+            if f.endswith('.json'):
+                CLAIMS[f[:-5]] = json.load(open(os.path.join(d, f)))
     checks = []
     for pid in ALL:
         if pid not in CLAIMS or not os.path.exists(os.path.join(V, 'harness', pid.lower() + '.py')):
@@ -28,7 +33,7 @@ def main():
             'replay_cmd_template': './check %s --replay {path}' % pid,
             'engine': 'coq-model-correspondence',
             'level_claimed': {'category': 'proof', 'text': c['text'], 'design_ref': c['design']},
-            'level_note': c['note'],
+            'level_note': (c['note'] if c['note'].startswith('Trusted') else NOTE + c['note']),
             'technique': c['technique'],
         })
     claimed = {c['property_id'] for c in checks}
